@@ -150,8 +150,9 @@ check("C26", "mpisim+hypothesis", "exploration",
 
 check("C27", "drivercfg+hypothesis", "exploration",
       "Weakest fit of the claimed set (the quantifier is over configurations). Unit of exploration = a history of driver "
-      "invocations in one process: pass 1 runs every row of a seeded pairwise covering array over 20 option factors (incl. how the callbacks are "
-      "declared: plain, default argument, functools.partial, callable object, bound method, *args); pass 2 "
+      "invocations in one process: pass 1 runs every row of a seeded pairwise covering array over 22 option factors (incl. how the callbacks are "
+      "declared: plain, default argument, functools.partial, callable object, bound method, *args; likelihood / minimisers / "
+      "controller given as functions of the iteration; initial_index); pass 2 "
       "lets Hypothesis generate and shrink histories of 1-4 invocations (free combinations, not only array rows) with "
       "environment events in between (output directories kept/removed/switched, extra RNG-stack entry). Oracle per "
       "invocation: completes; return type; sample count of the result; constants bit-unchanged; point estimates carry no "
